@@ -797,6 +797,18 @@ func init() {
 				}
 			}
 		}
+		// repetition around the length limit, also of the empty array
+		for _, c := range [][2]int{{0, 600}, {0, 513}, {1, 512}, {1, 513}, {2, 256}, {2, 257}, {3, 171}, {0, 0}, {2, 0}} {
+			for _, swap := range []bool{false, true} {
+				l, r := arrOf(c[0]), iv(c[1])
+				if swap {
+					l, r = r, l
+				}
+				id++
+				w.Write(N{"id": id, "cfg": N{"div0": false, "mode": -1, "fuel": 10, "loopmax": 5}, "faces": []int{},
+					"progs": [][]N{{stmt(N{"k": "mcall", "o": N{"k": "bin", "op": "*", "l": l, "r": r, "pp": true}, "m": "len", "args": []N{}, "pp": false})}}})
+			}
+		}
 		// name capture: a computed value or function written against a global variable, read from a frame that binds the same name
 		{
 			fn := func(name string, ps []string, body ...N) N { return N{"k": "func", "n": name, "ps": ps, "b": body} }
